@@ -194,6 +194,9 @@ pub enum Cmp {
     /// backwards (a result older than the recorded one is suspicious).  Along a chain n only grows,
     /// so asked (recorded, current) it agrees with `Noise`; asked the mirrored question it does not.
     Mono,
+    /// not symmetric either, the other way round (like a comparison of modification times): altered
+    /// iff the content differs or the current `|t<n>` is newer than the recorded one
+    Newer,
 }
 
 fn stamp(rec: &str) -> i64 {
@@ -288,6 +291,7 @@ impl Cfg {
             Cmp::Plain => last != cur,
             Cmp::Noise => strip(last) != strip(cur),
             Cmp::Mono => strip(last) != strip(cur) || stamp(cur) < stamp(last),
+            Cmp::Newer => strip(last) != strip(cur) || stamp(cur) > stamp(last),
             Cmp::Prod => {
                 let g = &self.graph;
                 let parts: Vec<String> = match (g.idx(up_id), g.idx(down_id)) {
